@@ -19,6 +19,10 @@ OBLIGATIONS = [
     "NanoVerif.C16.radial_similarity",
     "NanoVerif.C16.linear_checkOverflows_sound",
     "NanoVerif.C16.radial_checkOverflows_sound",
+    "NanoVerif.TrProofs.consts_agree",
+    "NanoVerif.TrProofs.int16_safe_eq",
+    "NanoVerif.TrProofs.f2dot14_safe_eq",
+    "NanoVerif.TrProofs.fixed_safe_eq",
 ]
 DESIGN_REF = "DESIGN.md §5 C16"
 LEVEL_TEXT = ("Lean theorems over a line-by-line model of paint.transformed / gettransform / _decompose_uniform_transform / "
